@@ -150,7 +150,35 @@ fn rule_oracle(
         }
         let in_base = base.0.contains_key(&t);
         if deletes > 0 && creates > 0 {
-            // delete and (re-)creation of one task in one scenario: not covered by the rules
+            // One shape is covered by the rules: the task did not exist, every editing replica
+            // created it (concurrent creations, all kept), none re-created it, and some replica
+            // deleted it as its last change to it - a deletion concurrent with the other
+            // replicas' updates, which wins.
+            let shapes: Vec<Vec<&Operation>> = realized
+                .iter()
+                .map(|ops| ops.iter().filter(|o| o.get_uuid() == Some(t) && !o.is_undo_point()).collect::<Vec<_>>())
+                .filter(|s| !s.is_empty())
+                .collect();
+            let simple = !in_base
+                && shapes.iter().all(|s| {
+                    let c = s.iter().filter(|o| matches!(o, Operation::Create { .. })).count();
+                    let d = s.iter().filter(|o| matches!(o, Operation::Delete { .. })).count();
+                    matches!(s[0], Operation::Create { .. })
+                        && c == 1
+                        && (d == 0 || (d == 1 && matches!(s[s.len() - 1], Operation::Delete { .. })))
+                });
+            if simple {
+                rep.class("conflict:created-everywhere-deleted-on-one");
+                crate::ensure!(
+                    !s1.0.contains_key(&t),
+                    "delete-did-not-win",
+                    "task {t} was created concurrently on {} replicas and deleted again on one of them, but exists after synchronization: {:?}",
+                    shapes.len(),
+                    s1.0.get(&t)
+                );
+                continue;
+            }
+            // other mixtures of deletion and (re-)creation in one scenario: not covered by the rules
             rep.class("rule-silent:create-and-delete");
             continue;
         }
@@ -296,8 +324,11 @@ pub fn pair_space() -> Vec<Scenario> {
         ];
         if base != 0 {
             k.push(vec![Intent::Delete { t: 0 }]);
+            k.push(vec![Intent::Set { t: 0, p: 1, v, ts }, Intent::Delete { t: 0 }]); // update, then delete
         } else {
             k.push(vec![Intent::Create { t: 0 }]);
+            k.push(vec![Intent::Create { t: 0 }, Intent::Delete { t: 0 }]); // created and deleted again before the first sync
+            k.push(vec![Intent::Set { t: 0, p: 1, v, ts }, Intent::Delete { t: 0 }]);
         }
         k
     }
@@ -368,7 +399,7 @@ pub fn run(e: &Engine) {
     let space = pair_space();
     e.enumerate(
         "pairs",
-        "every pair of single edits {update p, update q, update other task, remove p, delete task | create task} x value relation {distinct, equal, pool} x timestamp relation {earlier, equal, later} x base state {absent, empty, populated} x causal follow-up {none, by A, by B}; each run in both sync orders; non-trivial = contains a genuine conflict class or a causal follow-up",
+        "every pair of edits {update p, update q, update other task, remove p, delete task | create task, update-then-delete, create-then-delete} x value relation {distinct, equal, pool} x timestamp relation {earlier, equal, later} x base state {absent, empty, populated} x causal follow-up {none, by A, by B}; each run in both sync orders; non-trivial = contains a genuine conflict class or a causal follow-up",
         space,
         render,
         check_scenario,
